@@ -411,6 +411,19 @@ def impl_load(idx, p, graph_argv=()):
     return 'ok', pool, (genome, anno, proteome), ''
 
 
+def impl_load_nopool(idx):
+    """load_references the way the parse* / splitFasta / summarizeFasta commands do: no canonical pool requested."""
+    from moPepGen.cli import common
+    args = drive.parse(['parseVEP', '-i', 'x.tsv', '-o', 'o.gvf', '--index-dir', idx, '--source', 'gSNP'])
+    try:
+        common.load_references(args, load_canonical_peptides=False)
+    except BaseException as e:
+        if isinstance(e, KeyboardInterrupt):
+            raise
+        return type(e).__name__, f'{type(e).__name__}: {e}'[:200]
+    return 'ok', ''
+
+
 def compare_refdata(idx, data, ref):
     """Loaded genome / annotation / proteome / coding transcripts against the source files."""
     exp = expected_ref(ref)
@@ -630,6 +643,13 @@ def step(idx, m, op, params, universe, pre_snap=None):
                     problems.append(f'load({p}) with unregistered parameters: expected ValueError got {txt}')
                 else:
                     nontrivial = 1
+        # a load that does not ask for a pool (every parser, splitFasta, summarizeFasta) is subject to the same version check
+        o2, txt2 = impl_load_nopool(idx)
+        if m_post['ver'] not in VALID_STATUS:
+            if o2 != 'InvalidIndexError':
+                problems.append(f'version mismatch ({m_post["ver"]}) not rejected by a load without canonical peptides: {o2} {txt2}')
+        elif o2 != 'ok':
+            problems.append(f'load without canonical peptides raised {txt2} on a valid index')
         after = snapshot(idx)
         if after != post:
             problems.append('loading modified the directory: ' + '; '.join(snap_diff(post, after)[:6]))
